@@ -187,7 +187,7 @@ class Path:
         for f in fs:
             s.add(f)
         if self.ex.feas_axioms:
-            ax, _ = theory.instantiate(fs, rounds=1, heavy=False)
+            ax, _ = theory.instantiate(fs, rounds=1, heavy=False, quant=self.ex.quant)
             for a in ax:
                 s.add(a)
         r = s.check()
